@@ -9,7 +9,7 @@ use s3s::dto::PartNumber;
 
 use std::env;
 use std::ops::Not;
-use std::path::{Path, PathBuf};
+use std::path::{Component, Path, PathBuf};
 use std::sync::atomic::{AtomicU64, Ordering};
 
 use tokio::fs;
@@ -45,6 +45,15 @@ fn clean_old_tmp_files(root: &Path) -> std::io::Result<()> {
     Ok(())
 }
 
+/// A bucket is a directory directly under the root: its name must be a valid bucket name
+/// (in particular not `..`, not a path, and never one of the dot-prefixed bookkeeping files)
+fn check_bucket_dir_name(bucket: &str) -> Result<()> {
+    if s3s::path::check_bucket_name(bucket).not() {
+        return Err(Error::from_string("invalid bucket name"));
+    }
+    Ok(())
+}
+
 impl FileSystem {
     pub fn new(root: impl AsRef<Path>) -> Result<Self> {
         let root = env::current_dir()?.join(root).canonicalize()?;
@@ -63,8 +72,29 @@ impl FileSystem {
 
     /// resolve object path under the virtual root
     pub(crate) fn get_object_path(&self, bucket: &str, key: &str) -> Result<PathBuf> {
+        check_bucket_dir_name(bucket)?;
         let dir = Path::new(&bucket);
         let file_path = Path::new(&key);
+
+        // the object must stay inside its bucket directory:
+        // no absolute key, and `..` never climbs above the bucket
+        let mut depth: usize = 0;
+        for component in file_path.components() {
+            match component {
+                Component::Normal(_) => depth += 1,
+                Component::CurDir => {}
+                Component::ParentDir => {
+                    depth = depth
+                        .checked_sub(1)
+                        .ok_or_else(|| Error::from_string("object key escapes the bucket"))?;
+                }
+                Component::RootDir | Component::Prefix(_) => return Err(Error::from_string("object key is an absolute path")),
+            }
+        }
+        if depth == 0 {
+            return Err(Error::from_string("object key names the bucket directory itself"));
+        }
+
         self.resolve_abs_path(dir.join(file_path))
     }
 
@@ -77,6 +107,7 @@ impl FileSystem {
 
     /// resolve bucket path under the virtual root
     pub(crate) fn get_bucket_path(&self, bucket: &str) -> Result<PathBuf> {
+        check_bucket_dir_name(bucket)?;
         let dir = Path::new(&bucket);
         self.resolve_abs_path(dir)
     }
